@@ -699,6 +699,52 @@ func c09GettersAndBatches(c *fw.Ctx) {
 			c.Class(fmt.Sprintf("batch:%d", k))
 		}
 	}
+	// a request after a request: an entry that carries no value (a subscription) at the position at which the previous
+	// request carried one writes nothing — neither to its own characteristic nor to the one written before
+	for i := 0; i+1 < len(wr) && i < 40; i += 2 {
+		a, b := wr[i], wr[i+1]
+		va, vb := c09Values(a.Ch), c09Values(b.Ch)
+		if len(va) < 2 || len(vb) < 2 || !a.Ch.IsReadable() || !b.Ch.IsReadable() {
+			continue
+		}
+		c.Eval(1)
+		cas := c09Case{Kind: "batch", N: 1, Len: i, Value: "value-then-ev-only"}
+		w := va[0]
+		if reflect.DeepEqual(a.Ch.Value, w.V) {
+			w = va[1]
+		}
+		jv, _ := json.Marshal(w.V)
+		if m, _, err := s.k.Do("PUT", "/characteristics", refctl.CTJSON, []byte(fmt.Sprintf(`{"characteristics":[{"aid":%d,"iid":%d,"value":%s}]}`, a.Acc.ID, a.Ch.ID, jv))); err != nil || m.Status/100 != 2 {
+			c.Report("put-failed", fmt.Sprintf("PUT fails: %v %v", m, err), cas)
+			continue
+		}
+		keepA, keepB := a.Ch.Value, b.Ch.Value
+		s.mu.Lock()
+		callsB := s.calls[b.Ch]
+		s.mu.Unlock()
+		for _, body := range []string{
+			fmt.Sprintf(`{"characteristics":[{"aid":%d,"iid":%d,"ev":true}]}`, b.Acc.ID, b.Ch.ID),
+			fmt.Sprintf(`{"characteristics":[{"aid":%d,"iid":%d,"ev":false}]}`, b.Acc.ID, b.Ch.ID),
+			fmt.Sprintf(`{"characteristics":[{"aid":%d,"iid":%d}]}`, b.Acc.ID, b.Ch.ID),
+		} {
+			if _, _, err := s.k.Do("PUT", "/characteristics", refctl.CTJSON, []byte(body)); err != nil {
+				c.Report("put-failed", fmt.Sprintf("PUT %s fails: %v", body, err), cas)
+				break
+			}
+			s.mu.Lock()
+			nb := s.calls[b.Ch]
+			s.mu.Unlock()
+			if !reflect.DeepEqual(b.Ch.Value, keepB) || nb != callsB {
+				c.Report("entry-without-value-wrote/"+b.Ch.Format, fmt.Sprintf("after a PUT that wrote %s, the request %s (no value in it) changed %s from %v to %v (remote-update callbacks: %d)", a.Name, body, b.Name, string(trunc([]byte(fmt.Sprint(keepB)), 30)), string(trunc([]byte(fmt.Sprint(b.Ch.Value)), 30)), nb-callsB), cas)
+				break
+			}
+			if !reflect.DeepEqual(a.Ch.Value, keepA) {
+				c.Report("entry-without-value-wrote-elsewhere/"+a.Ch.Format, fmt.Sprintf("the request %s changed %s", body, a.Name), cas)
+				break
+			}
+		}
+		c.Class("value-then-ev-only:" + b.Ch.Format)
+	}
 	// corrections: the application answers a controller's write from inside its remote-update callback by setting
 	// another value (e.g. the nearest one the hardware supports). What the application set last is what counts: the
 	// getter, a following read and /accessories show the corrected value.
